@@ -960,7 +960,10 @@ def check_space(ctx: Ctx) -> None:
         rb = {cfg.node_of(rules.enclosing_stmt(f, c)) for c in rules.self_calls(f, "build_joint_distribution")}
         for s in muts:
             n += 1
-            esc = cfg.escape_path(cfg.node_of(s), rb)
+            # branches that contradict a condition holding at the mutation (the same flag tested twice) cannot be taken
+            from gv.props.shared import contradicted_branches
+
+            esc = cfg.path(cfg.node_of(s), cfg.exit, (rb | contradicted_branches(cfg, cfg.node_of(s))) - {cfg.node_of(s)})
             ctx.ob("19.6-rebuild", cname(PS, "ParameterSpace", mname), esc is None, "the random variables change but a path reaches the end of the method without rebuilding the joint distribution: compute_samples would sample the old set of variables" + (f" (path: {cfg.describe_path(esc)})" if esc else ""), node=s)
     ctx.floor("19.6-rebuild", 4)
     f = idx.method(PS, "ParameterSpace", "build_joint_distribution")
